@@ -1,5 +1,6 @@
 (* Props/C15.v — What the preview shows is what apply does.  Statements only. *)
 From RN Require Import Base.Bytes Model.Edits Model.Matcher Model.Hunks Proofs.EditsP Proofs.HunksP.
+From RN Require Import Model.ApplyModel Model.SimplePlan Proofs.SimplePlanP.
 
 (* 'before' is the file's current line and a match's 'after' is that line with that match replaced:
    part of hunk_ok, which the planner's hunks satisfy for every content and span *)
@@ -38,3 +39,16 @@ Print Assumptions C15_before_after_of_planner_hunks.
 Print Assumptions C15_diff_after_is_line_after_plan.
 Print Assumptions C15_consistent_diff_after.
 Print Assumptions C15_cr_cut_preview_understates.
+
+(* the same for the planner behind `renamify replace` (Model/SimplePlan.v), for EVERY file: for the hunks the plan has on one line -
+   any contiguous segment of the file's hunk list whose hunks share a line number - the diff preview's added line is the line as it
+   reads once all of them are applied.  The CR-cut exception of the case-aware planner cannot arise here (a match never ends in the
+   '\r' of "\r\n": the line is searched without its terminator) *)
+Theorem C15_simple_plan_preview : forall excl p repl bat c seg_pre h0 hs seg_post,
+  p <> [] -> utf8_ok p = true ->
+  fst (SimplePlan.process_file_content excl p repl bat c) = seg_pre ++ (h0 :: hs) ++ seg_post ->
+  (forall h, In h hs -> fh_line h = fh_line h0) ->
+  diff_after (h0 :: hs) = line_after_plan (line_ctx false c (fh_start h0)) (h0 :: hs).
+Proof. exact simple_plan_now_preview. Qed.
+
+Print Assumptions C15_simple_plan_preview.
